@@ -40,8 +40,11 @@ VEC_P2TR = ("79be667ef9dcbbac55a06295ce870b07029bfcdb2dce28d959f2815b16f81798",
             "bc1p0xlxvlhemja6c4dqv22uapctqupfhlxm9h8z3k2e72q4k9hcz7vqzk5jj0")   # BIP350
 
 
+KEY_SECRETS = (1, 2, 3, nets.N - 1, 0x1234567890ABCDEF1234567890ABCDEF)     # the first points of the key table are k*G
+
+
 def _key_table():
-    pts = [nets.ec_mul(k) for k in (1, 2, 3, nets.N - 1, 0x1234567890ABCDEF1234567890ABCDEF)]
+    pts = [nets.ec_mul(k) for k in KEY_SECRETS]
     for hx in (VEC_BIP49[0], VEC_BIP84[0]):
         b = bytes.fromhex(hx)
         x = int.from_bytes(b[1:], "big")
@@ -62,7 +65,7 @@ def _got(res):
 
 def _case_chunk(recs):
     """execute address cases on pycoin; returns (n_evaluations, [failure dicts], [class keys])"""
-    allnets = nets.networks()
+    allnets = nets.networks_ext()
     stub = {s: nets.is_stub(n) for s, n in allnets}
     fails = []
     classes = set()
@@ -70,12 +73,14 @@ def _case_chunk(recs):
     for r in recs:
         N = nets.net(r["n"])
         b58 = r["text"]["op"] == "b58c"
-        if b58 and r["text"]["chk"] != "sha256d":
+        if b58 and r["text"]["chk"] not in nets.CHECKSUMS:
             continue        # Groestlcoin Base58 texts cannot be produced here (L3)
-        text = nets.ev(r["text"])
+        text = nets.ev_text(r["text"])
         h = bytes(r["h"])
         kind = r["kind"]
-        base = {"n": r["n"], "kind": kind, "len": r["len"], "first": r["first"], "ver": r["ver"], "var": r["var"], "text": text}
+        pd = r.get("pd") or {"or": 0, "ext": []}
+        canon = not pd["or"] and not pd["ext"]
+        base = {"n": r["n"], "kind": kind, "len": r["len"], "first": r["first"], "ver": r["ver"], "var": r["var"], "pd": pd, "text": text}
         if r["good"]:
             classes.add((r["n"], kind, r["first"]))
             script = nets.script_bytes(r["script"], {1: h})
@@ -142,8 +147,11 @@ def _case_chunk(recs):
                         else:
                             key = "C08|parse.address|wrong-shape|enc=seg|kind=%s|len=%d|ver=%d|var=%s|got=%s" % (
                                 kind, r["len"], r["ver"], r["var"], got[0])
-                        what = "%s.parse.address(%r) (version bytes of %s %s, %d-byte payload, witness version %d, %s): expected None, got type %s script %s" % (
-                            msym, text, r["n"], kind, r["len"], r["ver"], r["var"], got[0], got[1])
+                            if not canon:
+                                key += "|padding=%s" % ("+".join(x for x in ("bits" if pd["or"] else "", "symbols" if pd["ext"] else "") if x))
+                        what = "%s.parse.address(%r) (version bytes of %s %s, %d-byte payload, witness version %d, %s%s): expected None, got type %s script %s" % (
+                            msym, text, r["n"], kind, r["len"], r["ver"], r["var"],
+                            "" if canon else ", padding bits %d, further symbols %s" % (pd["or"], pd["ext"]), got[0], got[1])
                     fails.append(dict(base, m=msym, key=key, what=what, got=got))
     return nev, fails, sorted(classes)
 
@@ -174,7 +182,7 @@ def _key_cases(args):
         if nets.is_stub(N) :
             continue
         pt = pts[r["key"] - 1]
-        want = {k: (nets.ev(r[k][0]) if r[k] else None) for k in ("addr_c", "addr_u", "bip49", "bip84", "bip49_u", "bip84_u")}
+        want = {k: (nets.ev_text(r[k][0]) if r[k] else None) for k in ("addr_c", "addr_u", "bip49", "bip84", "bip49_u", "bip84_u")}
         secc = nets.sec_of(pt, True)
         blob = b"\0\0\0\0" + b"\0" + b"\0\0\0\0" + b"\0\0\0\0" + bytes(range(32)) + secc
         obs = {
@@ -208,6 +216,67 @@ def _key_cases(args):
             if tag != "ok" or v != w:
                 fails.append({"key": "C08|key-address|%s|%s" % (nm, "exc:" + str(v) if tag != "ok" else "differs"),
                               "what": "%s on %s for the point %x: expected %r, got %r" % (nm, r["n"], pt[0], w, v), "n": r["n"], "pt": [hex(pt[0]), hex(pt[1])]})
+    return nev, fails
+
+
+# ---------------------------------------------------------------- replay: sessions on one key object
+FORM_ARG = {"c": True, "u": False, "d": None}
+
+
+def _op_name(op):
+    return "copy" if op["a"] == "copy" else "%s:%s" % (op["o"], op["f"])
+
+
+def _hist_chunk(args):
+    """execute key-object sessions: (network symbol, key index, {form: (address, hash)}) x sessions"""
+    targets, sessions = args
+    fails = []
+    nev = 0
+    for sym, ki, terms in targets:
+        N = nets.net(sym)
+        se = KEY_SECRETS[ki - 1]
+        blob = b"\0\0\0\0" + b"\0" + b"\0\0\0\0" + b"\0\0\0\0" + bytes(range(32)) + b"\0" + se.to_bytes(32, "big")
+        for ses in sessions:
+            if ses["obj"] == "key":
+                tag, k = nets.call(lambda: N.keys.private(se, is_compressed=ses["marked"]))
+            else:
+                tag, k = nets.call(N.keys.bip32_deserialize, blob)
+            if tag != "ok" or k is None:
+                fails.append({"key": "C08|key-history|obj=%s|construct|%s" % (ses["obj"], k), "what": "%s: constructing the %s object raised %s" % (sym, ses["obj"], k), "n": sym})
+                continue
+            objs = {"k": k}
+            for i, op in enumerate(ses["ops"]):
+                if op["a"] == "copy":
+                    tag, v = nets.call(k.public_copy)
+                    nev += 1
+                    if tag != "ok":
+                        fails.append({"key": "C08|key-history|obj=%s|public_copy|exc:%s" % (ses["obj"], v), "what": "%s: public_copy() raised %s" % (sym, v), "n": sym})
+                        break
+                    objs["p"] = v
+                    continue
+                o = objs[op["o"]]
+                arg = FORM_ARG[op["f"]]
+                allowed = [terms[f] for f in op["allow"]]
+                after = "+".join(_op_name(x) for x in ses["ops"][:i]) or "fresh"
+                for q, idx, f in (("address", 0, lambda: o.address(is_compressed=arg)), ("hash160", 1, lambda: o.hash160(is_compressed=arg))):
+                    tag, v = nets.call(f)
+                    nev += 1
+                    if tag != "ok":
+                        # a hierarchical node may refuse the uncompressed form; a plain key may not refuse anything
+                        if ses["obj"] == "bip32" and "u" in op["allow"]:
+                            continue
+                        fails.append({"key": "C08|key-history|obj=%s|%s|ask=%s|after=%s|exc:%s" % (ses["obj"], q, _op_name(op), after, v),
+                                      "what": "%s, %s made from secret exponent %x (marked %s): after [%s], %s(%s) of %s raised %s" % (
+                                          sym, ses["obj"], se, "compressed" if ses["marked"] else "uncompressed", after, q, op["f"], op["o"], v),
+                                      "n": sym, "session": ses})
+                    elif v not in [a[idx] for a in allowed]:
+                        is_other = [f2 for f2 in ("c", "u") if terms[f2][idx] == v]
+                        fails.append({"key": "C08|key-history|obj=%s|%s|ask=%s|after=%s|got=%s" % (ses["obj"], q, _op_name(op), after, "form-" + is_other[0] if is_other else "other"),
+                                      "what": "%s, %s made from secret exponent %x (marked %s): after [%s], %s(%s) of %s = %r; the key's %s in form %s is %r" % (
+                                          sym, ses["obj"], se, "compressed" if ses["marked"] else "uncompressed", after, q, op["f"],
+                                          "the key" if op["o"] == "k" else "its public copy", v.hex() if isinstance(v, bytes) else v, q,
+                                          "/".join(op["allow"]), [a[idx].hex() if idx else a[idx] for a in allowed]),
+                                      "n": sym, "session": ses})
     return nev, fails
 
 
@@ -316,12 +385,18 @@ class _Streamer:
 # ---------------------------------------------------------------- traces
 def _structure(text):
     """the abstract structure of a text (Address.tla's S), by the independent decoders"""
-    p = nets.b58check_dec(text)
-    if p is not None:
-        return {"e": "b58c", "d": list(p), "hrp": [], "ver": 0, "var": "sha256d"}
+    for chk in nets.CHECKSUMS:
+        p = nets.b58check_dec_chk(chk, text)
+        if p is not None:
+            return {"e": "b58c", "d": list(p), "hrp": [], "ver": 0, "var": chk}
     s = nets.segwit_dec(text)
     if s is not None:
         return {"e": "seg", "d": list(s[2]), "hrp": [ord(c) for c in s[0]], "ver": s[1], "var": s[3]}
+    s = nets.segwit_syms(text)
+    if s is not None:
+        # a Bech32 text with a version symbol whose further symbols are not known to regroup to bytes: the symbols
+        # themselves are logged, TLC decides (Trace_Address.Norm) what the text is
+        return {"e": "segx", "d": list(s[2]), "hrp": [ord(c) for c in s[0]], "ver": s[1], "var": s[3]}
     return {"e": "other", "d": [], "hrp": [], "ver": 0, "var": ""}
 
 
@@ -329,8 +404,8 @@ def record_traces(seed, count):
     """sessions: one text (a real serialisation, possibly mutated) pushed through parse.address of
     several networks via ONE parseable_str object (its cache is the state), plus the encoder calls"""
     rnd = random.Random(seed)
-    allnets = [(s, n) for s, n in nets.networks() if not nets.is_stub(n)]
-    tbl = {t["sym"]: t for t in nets.table()}
+    allnets = [(s, n) for s, n in nets.networks_ext() if not nets.is_stub(n)]
+    tbl = {t["sym"]: t for t in nets.table() + nets.table_ext()}
     multib = [s for s, _ in allnets if len(tbl[s]["p2pkh"]) > 1 or len(tbl[s]["p2sh"]) > 1]
     traces = []
     for ti in range(count):
@@ -354,18 +429,28 @@ def record_traces(seed, count):
             d = bytes(st["d"])
             dl = rnd.choice([-1, 1, -2, 12, 13, -20])
             d = d[:dl] if dl < 0 else d + bytes(rnd.randrange(256) for _ in range(dl))
-            text = nets.b58check(d)
+            text = nets.b58check_chk(st["var"], d)
         elif mut < 0.4 and st["e"] == "b58c":
             # version bytes of another network / kind, checksum recomputed
             t2 = tbl[rnd.choice(allnets)[0]]
             pf = rnd.choice([p for p in (t2["p2pkh"], t2["p2sh"], t2["wif"]) if p])
-            text = nets.b58check(bytes(pf) + h)
+            text = nets.b58check_chk(rnd.choice(sorted(nets.CHECKSUMS)) if rnd.random() < 0.2 else "sha256d", bytes(pf) + h)
         elif mut < 0.55 and st["e"] == "seg":
             ver = rnd.choice([0, 0, 1, 1, 2, 16])
             prog = h if rnd.random() < 0.5 else bytes(rnd.randrange(256) for _ in range(rnd.choice([2, 19, 20, 21, 31, 32, 33, 40])))
             text = nets.segwit("".join(map(chr, st["hrp"])), ver, prog, rnd.choice(["bech32", "bech32m"]))
         elif mut < 0.6:
             text = text[:-1] + ("q" if text[-1] != "q" else "p")    # checksum broken
+        elif mut < 0.72 and st["e"] == "seg":
+            # the same program spelt with other padding: bits set in the incomplete last group, further symbols
+            syms = nets._to5(bytes(st["d"]))
+            pb = 5 * len(syms) - 8 * len(st["d"])
+            how = rnd.random()
+            if pb and how < 0.5:
+                syms[-1] |= rnd.randrange(1, 1 << pb)
+            else:
+                syms += [rnd.choice([0, 0, 1, 16, 31]) for _ in range(rnd.choice([1, 1, 2]))]
+            text = nets.bech32_text("".join(map(chr, st["hrp"])), [st["ver"]] + syms, st["var"])
         ps = N.parseable_str_type(text)
         st = _structure(text)
         ms = [sym] + [s for s, _ in rnd.sample(allnets, 6)]
@@ -419,9 +504,10 @@ def run(ctx):
                 "sequences <= MaxLen and the edit neighbourhood of the templates; distinct_nontrivial = (network, kind, first byte) classes of good "
                 "addresses + scripts for which a standard kind is allowed")
     ctx.assumptions += ["Base58Check and Bech32 are injective on valid texts (C11)", "SHA-256 / RIPEMD-160 collision-free",
-                        "Groestlcoin-family Base58 texts are out of reach: groestlcoin_hash is not installed (L3)",
+                        "Groestlcoin-family Base58 texts are out of reach: groestlcoin_hash is not installed (L3); a network built the same way "
+                        "(ParseAPI.parse_b58_hashed override + AddressAPI.b2a hook) with a computable checksum function stands in for them",
                         "the prefix table is configuration: it is read from network.parse of every registered symbol"]
-    tbl = nets.table()
+    tbl = nets.table() + nets.table_ext()
     pts = _key_table()
     tpath = nets.write_json(tbl, "vf-c08-table-")
     kpath = nets.write_json([{"secc": list(nets.sec_of(p, True)), "secu": list(nets.sec_of(p, False))} for p in pts], "vf-c08-keys-")
@@ -468,12 +554,23 @@ def _run(ctx, q, stage, env, tbl, pts):
         for rec in recs:
             if rec["text"]["op"] == "chars":
                 nseg += 1
-                if nets.segwit("".join(map(chr, _hrp_of(tbl, rec["n"]))), rec["ver"], bytes(rec["h"]), rec["var"]) != nets.ev(rec["text"]):
+                syms = nets._to5(bytes(rec["h"]))
+                if rec["pd"]["or"]:
+                    syms[-1] |= rec["pd"]["or"]
+                hrp = "".join(map(chr, _hrp_of(tbl, rec["n"])))
+                mine = nets.bech32_text(hrp, [rec["ver"]] + syms + rec["pd"]["ext"], rec["var"])
+                canon = not rec["pd"]["or"] and not rec["pd"]["ext"]
+                # (the independent decoder must see a padding rule violation exactly where the rule book saw one:
+                #  a non-canonical spelling is either no segwit text or a program of another length)
+                dec = nets.segwit_dec(mine)
+                if mine != nets.ev(rec["text"]) or (canon and nets.segwit(hrp, rec["ver"], bytes(rec["h"]), rec["var"]) != mine) \
+                        or (not canon and dec is not None and len(dec[2]) == len(rec["h"])):
                     raise MachineryError("Bech32 evaluator disagrees with Bech32.tla on %s" % rec)
         # R2: the BIP173 / BIP350 vectors are among the cases TLC printed?  (hash of G is not; checked via keys below)
         ctx.extra["segwit_strings_cross_checked"] = nseg
         nf = _run_cases(ctx, recs, "address-cases")
         ctx.log("address cases: %d texts x %d reading networks, %d disagreements (incl. known)" % (len(recs), len(tbl), nf))
+        ctx.extra["segwit_padding_variants"] = sum(1 for x in recs if x["pd"]["or"] or x["pd"]["ext"])
         good = [x for x in recs if x["good"] and x["text"]["op"] == "b58c" and x["text"]["chk"] == "sha256d"]
         ctx.sample({"case": {k: good[0][k] for k in ("n", "kind", "h", "text", "script")}, "text": nets.ev(good[0]["text"]),
                     "accepted_by": [e["m"] for e in good[0]["expect"] if e["ok"]]})
@@ -499,8 +596,8 @@ def _run(ctx, q, stage, env, tbl, pts):
         g = byk[("BTC", 1)]
         v49 = byk[(VEC_BIP49[1], len(pts) - 1)]
         v84 = byk[(VEC_BIP84[1], len(pts))]
-        if (nets.ev(g["addr_c"][0]), nets.ev(g["addr_u"][0]), nets.ev(g["bip84"][0])) != (VEC_G_COMPRESSED, VEC_G_UNCOMPRESSED, VEC_G_SEGWIT) \
-                or nets.ev(v49["bip49"][0]) != VEC_BIP49[2] or nets.ev(v84["bip84"][0]) != VEC_BIP84[2]:
+        if (nets.ev_text(g["addr_c"][0]), nets.ev_text(g["addr_u"][0]), nets.ev_text(g["bip84"][0])) != (VEC_G_COMPRESSED, VEC_G_UNCOMPRESSED, VEC_G_SEGWIT) \
+                or nets.ev_text(v49["bip49"][0]) != VEC_BIP49[2] or nets.ev_text(v84["bip84"][0]) != VEC_BIP84[2]:
             raise MachineryError("address terms of Address.tla disagree with the official Key / BIP49 / BIP84 vectors")
         for nev, fails in pmap(_key_cases, [(c, pts) for c in split(recs, NPROC)], chunk=1):
             ctx.case(None, nev)
@@ -508,11 +605,41 @@ def _run(ctx, q, stage, env, tbl, pts):
                 ctx.fail(f["key"], f["what"], f)
         ctx.replayed += len(recs)
         ctx.action("replay.keys", len(recs))
-        ctx.sample({"key_case": g, "addr_c": nets.ev(g["addr_c"][0])})
+        ctx.sample({"key_case": g, "addr_c": nets.ev_text(g["addr_c"][0])})
+        # ---- sessions on one key object (history dimension): the answers come from the "key" records above (terms) and
+        #      from the session records (which form's answer each question may get)
+        rh = ctx.tlc("MC_Address", "MC_Address_hist", workers=4, env=env)
+        sessions = rh.by_kind("hist")
+        kis = (1, len(KEY_SECRETS)) if q else tuple(range(1, len(KEY_SECRETS) + 1))
+        targets = []
+        for x in recs:
+            if x["key"] in kis and x["addr_c"] and x["addr_c"][0]["chk"] in nets.CHECKSUMS and not nets.is_stub(nets.net(x["n"])):
+                terms = {f: (nets.ev_text(x[a][0]), nets.ev(x[a][0]["a"]["a"][1])) for f, a in (("c", "addr_c"), ("u", "addr_u"))}
+                targets.append((x["n"], x["key"], terms))
+        if not sessions or not targets:
+            raise MachineryError("no key sessions to replay")
+        nfh = 0
+        for nev, fails in pmap(_hist_chunk, [(c, sessions) for c in split(targets, NPROC * 2)], chunk=1):
+            ctx.case(None, nev)
+            for f in fails:
+                nfh += 1
+                ctx.fail(f["key"], f["what"], f)
+        for ses in sessions:
+            ctx.case(("key-session", ses["obj"], ses["marked"], "+".join(_op_name(o) for o in ses["ops"])), 0)
+        ctx.replayed += len(sessions) * len(targets)
+        ctx.action("replay.key-sessions", len(sessions) * len(targets))
+        ctx.log("key sessions: %d sessions x %d (network, key) pairs, %d disagreements (incl. known)" % (len(sessions), len(targets), nfh))
+        ctx.sample({"key_session": sessions[len(sessions) // 2]})
+        # binding self-test: a session whose allowed form is swapped must be rejected (canned: BTC, G)
+        import copy
+        bad = copy.deepcopy([x for x in sessions if x["obj"] == "key" and len(x["ops"]) == 1 and x["ops"][0]["f"] == "u"][0])
+        bad["ops"][0]["allow"] = ["c"]
+        _, fails = _hist_chunk(([t for t in targets if t[0] == "BTC"][:1], [bad]))
+        ctx.selftest("replay_rejects_corrupted_key_session", any(f["key"].startswith("C08|key-history|obj=key|address|ask=k:u") for f in fails))
 
     # ---- 2c. classification
     if stage("classify"):
-        syms_all = [s for s, _ in nets.networks()]
+        syms_all = [s for s, _ in nets.networks_ext()]
         neigh = []
         for cfg in (["MC_Classify_m", "MC_Classify_q", "MC_Classify_nq"] if q else ["MC_Classify_m", "MC_Classify_t", "MC_Classify_nt"]):
             st = _Streamer(_cls_chunk, ["BTC"] if cfg != "MC_Classify_m" else ["BTC", "BCH", "LTC", "DOGE"])
